@@ -881,6 +881,13 @@ def m_string_from_str(I, args, callee):
     return m_to_owned_str(I, args, callee)
 
 
+def m_into_string(I, args, callee):
+    a = args[0]
+    if isinstance(a, SliceRef) or isinstance(a, Ref):
+        return m_to_owned_str(I, [a], callee)
+    return a
+
+
 def m_string_from_utf8_unchecked(I, args, callee):
     v = args[0]
     return Agg('String', [v])
@@ -1312,6 +1319,49 @@ def m_vacant_insert(I, args, callee):
     hm.fields.append(ent)
     map_added(I, hm, e.fields[1])
     return Ref(Cell(ent), (('f', 1),))
+
+
+def m_hs_contains(I, args, callee):
+    s_ = I.deref(args[0])
+    for x in s_.fields:
+        if truthy(I, key_eq(I, x, args[1])):
+            return BoolV(True)
+    return BoolV(False)
+
+
+def m_hs_remove(I, args, callee):
+    s_ = I.deref(args[0])
+    for i, x in enumerate(s_.fields):
+        if truthy(I, key_eq(I, x, args[1])):
+            del s_.fields[i]
+            s_.meta = None
+            return BoolV(True)
+    return BoolV(False)
+
+
+def m_hm_remove(I, args, callee):
+    hm = I.deref(args[0])
+    i = map_find(I, hm, args[1])
+    if i is None:
+        return none()
+    ent = hm.fields.pop(i)
+    hm.meta = None
+    return some(ent.fields[1])
+
+
+def m_hm_values(I, args, callee):
+    hm = I.deref(args[0])
+    return new_iter([Ref(Cell(e), (('f', 1),)) for e in hm.fields])
+
+
+def m_hm_keys(I, args, callee):
+    hm = I.deref(args[0])
+    return new_iter([Ref(Cell(e), (('f', 0),)) for e in hm.fields])
+
+
+def m_hs_iter(I, args, callee):
+    s_ = I.deref(args[0])
+    return new_iter([Ref(Cell(Agg('view', s_.fields)), (('f', i),)) for i in range(len(s_.fields))])
 
 
 def m_hs_insert(I, args, callee):
@@ -2011,7 +2061,7 @@ MODELS = [
     (r'^<String as From<&str>>::from$|^<str as ToOwned>::to_owned$|^(core::)?str::<impl str>::to_owned$|^<String as From<&String>>::from$', m_string_from_str),
     (r'^<str as ToString>::to_string$|^<String as ToString>::to_string$', m_string_from_str),
     (r'^<\[.*\] as ToOwned>::to_owned$', m_to_vec),
-    (r'^<.* as Into<String>>::into$|^<String as From<String>>::from$', m_identity),
+    (r'^<.* as Into<String>>::into$|^<String as From<String>>::from$', m_into_string),
     (r'^<&str as Into<String>>::into$', m_string_from_str),
     (r'^(core::)?str::<impl str>::repeat$', m_str_repeat),
     (r'^(core::)?str::<impl str>::parse::<usize>$', m_str_parse_usize),
@@ -2037,6 +2087,14 @@ MODELS = [
     (r'VacantEntry::<.*>::key$', m_vacant_key),
     (r'VacantEntry::<.*>::insert$', m_vacant_insert),
     (r'^(std::collections::)?HashSet::<.*>::insert$', m_hs_insert),
+    (r'^(std::collections::)?HashSet::<.*>::contains::', m_hs_contains),
+    (r'^(std::collections::)?HashSet::<.*>::remove::', m_hs_remove),
+    (r'^(std::collections::)?(HashSet|HashMap)::<.*>::len$', m_len),
+    (r'^(std::collections::)?(HashSet|HashMap)::<.*>::is_empty$', m_is_empty),
+    (r'^(std::collections::)?HashSet::<.*>::iter$|^<&(std::collections::)?HashSet<.*> as IntoIterator>::into_iter$', m_hs_iter),
+    (r'^(std::collections::)?HashMap::<.*>::remove::', m_hm_remove),
+    (r'^(std::collections::)?HashMap::<.*>::values$', m_hm_values),
+    (r'^(std::collections::)?HashMap::<.*>::keys$', m_hm_keys),
     (r'^<(std::collections::)?HashSet<.*> as IntoIterator>::into_iter$', m_hs_into_iter),
     (r'^<std::collections::hash_set::IntoIter<.*> as Iterator>::next$', m_pyiter_next),
     (r'^<&(std::collections::)?HashMap<.*> as IntoIterator>::into_iter$|^(std::collections::)?HashMap::<.*>::iter$', m_hm_iter),
